@@ -454,4 +454,92 @@ theorem ParentSame.bookedExact {p p' : Ca} {ch : Handle} (h : ParentSame p p' ch
       simp only [Ca.issuedIn, h4, hq] at hi
       exact ⟨c', rc', k, cc, h2, h4, hcur.trans hk, hi.trans hg, by rw [hr]; exact hres⟩
 
+/-! ## An accepted class-name mapping keeps the names distinct (fix 02d8de59) -/
+
+theorem find?_filter_of_found {l : List (Rcn × Rcn)} {v n : Rcn} {p : Rcn × Rcn}
+    (h : l.find? (fun e => decide (e.2 = v)) = some p) (hp : p.1 ≠ n) :
+    (l.filter (fun e => decide (e.1 ≠ n))).find? (fun e => decide (e.2 = v)) = some p := by
+  induction l with
+  | nil => cases h
+  | cons a t ih =>
+    simp only [List.find?_cons] at h
+    by_cases hav : a.2 = v
+    · simp only [hav, decide_true] at h
+      cases h
+      simp [hp, hav]
+    · simp only [hav, decide_false] at h
+      by_cases han : a.1 ≠ n
+      · simp only [List.filter_cons, han, ne_eq, not_false_eq_true, decide_true, if_true, List.find?_cons, hav,
+          decide_false]
+        exact ih h
+      · simp only [List.filter_cons, han, decide_false, Bool.false_eq_true, if_false]
+        exact ih h
+
+theorem find?_filter_of_none {l : List (Rcn × Rcn)} {v n : Rcn}
+    (h : l.find? (fun e => decide (e.2 = v)) = none) :
+    (l.filter (fun e => decide (e.1 ≠ n))).find? (fun e => decide (e.2 = v)) = none := by
+  rw [List.find?_eq_none] at h ⊢
+  intro x hx
+  exact h x (List.mem_filter.mp hx).1
+
+/-- `ChildUpdateResourceClassNameMapping`, when accepted, keeps `namesOk` for the child. -/
+theorem mapping_keeps_namesOk {s s' : Sys} {ch : Handle} {n m : Rcn} {evs : List Ev}
+    (hok : s.ca.namesOk ch = true) (hex : s.exec (.childMapping ch n m) = .stored evs s') :
+    s'.ca.namesOk ch = true := by
+  obtain ⟨hp, hr⟩ := exec_stored_iff.mp hex
+  obtain ⟨ca', o'⟩ := s'
+  have ha := (runEvs_some_iff.mp hr).1
+  simp only [Ca.process] at hp
+  cases hc : get s.ca.children ch with
+  | none => rw [hc] at hp; cases hp
+  | some c =>
+    rw [hc] at hp
+    simp only at hp
+    split at hp
+    · cases hp
+    · split at hp
+      · cases hp
+      · rename_i _ htaken
+        simp only [Except.ok.injEq] at hp; subst hp
+        simp only [Ca.applyAll, Ca.apply, Ca.withChild, hc, Option.bind_some, Option.some.injEq] at ha
+        subst ha
+        unfold Ca.namesOk at hok ⊢
+        rw [hc] at hok
+        simp only [get_set_self, List.all_eq_true, decide_eq_true_eq] at hok ⊢
+        intro q hq
+        have hnt : ∀ q', q' ∈ keys s.ca.classes → q' ≠ n → c.nameForChild q' ≠ m := by
+          intro q' hq' hne hm
+          apply htaken
+          unfold Ca.nameTaken
+          rw [List.any_eq_true]
+          exact ⟨q', List.mem_filter.mpr ⟨List.mem_append.mpr (Or.inl hq'), by simpa using hne⟩, by simpa using hm⟩
+        by_cases hqn : q = n
+        · subst hqn
+          have h1 : ({ c with rcnMap := set c.rcnMap q m } : Child).nameForChild q = m := by
+            simp only [Child.nameForChild, get_set_self, Option.getD_some]
+          rw [h1]
+          simp only [Child.nameInParent, AMap.set, List.find?_cons, decide_true]
+        · have hfc : ({ c with rcnMap := set c.rcnMap n m } : Child).nameForChild q = c.nameForChild q := by
+            simp only [Child.nameForChild]
+            rw [get_set_ne _ _ (fun h => hqn h.symm)]
+          rw [hfc]
+          have hvm : c.nameForChild q ≠ m := hnt q hq hqn
+          have hold := hok q hq
+          simp only [Child.nameInParent] at hold ⊢
+          simp only [AMap.set, List.find?_cons]
+          have hhead : decide (m = c.nameForChild q) = false := by simpa using fun h => hvm h.symm
+          simp only [hhead]
+          cases hf : c.rcnMap.find? (fun p => decide (p.2 = c.nameForChild q)) with
+          | none =>
+            rw [hf] at hold
+            simp only [AMap.del]
+            rw [find?_filter_of_none hf]
+            exact hold
+          | some p =>
+            rw [hf] at hold
+            simp only at hold
+            simp only [AMap.del]
+            rw [find?_filter_of_found hf (by rw [hold]; exact hqn)]
+            exact hold
+
 end KM.CaK
